@@ -38,7 +38,7 @@ def ordering_matrix(Rs):
     return np.vstack(columns)
 
 
-def matrix_rep(p=0, q=0, r=0, signature=None):
+def matrix_rep(p=0, q=0, r=0, signature=None, blades=None):
     """
     Create the matrix reps of all the basis blades of an algebra.
     These are selected such that the entries in the first column
@@ -48,6 +48,8 @@ def matrix_rep(p=0, q=0, r=0, signature=None):
     :param p: number of positive dimensions.
     :param q: number of negative dimensions.
     :param r: number of null dimensions.
+    :param blades: (optional) for a custom basis, the basis blades as sequences of generator indices;
+        each blade is then represented by the ordered product of its generators.
     :return: sequence of matrix reps for the basis-blades.
     """
     d = p + q + r
@@ -85,11 +87,15 @@ def matrix_rep(p=0, q=0, r=0, signature=None):
     Iden = np.eye(2 ** d, dtype=int)
     Rs.insert(0, Iden)
 
-    # Extend Rs with the higher order basis-blades.
-    for i in range(2, d+1):
-        Rs_grade_i = [reduce(lambda x, y: x @ y, comb)
-                      for comb in combinations(Es, r=i)]
-        Rs.extend(Rs_grade_i)
+    if blades is not None:
+        # Custom basis: every blade is the ordered product of its generators.
+        Rs = [reduce(lambda x, y: x @ y, (Es[i] for i in blade), Iden) for blade in blades]
+    else:
+        # Extend Rs with the higher order basis-blades.
+        for i in range(2, d+1):
+            Rs_grade_i = [reduce(lambda x, y: x @ y, comb)
+                          for comb in combinations(Es, r=i)]
+            Rs.extend(Rs_grade_i)
 
     O = ordering_matrix(Rs)
     return [O @ Ri @ O.T for Ri in Rs]
